@@ -7,7 +7,7 @@
 // NOTE tools/vlib.build_harness does not hash this header: bump TREEDYN_GEN_VERSION here AND in every Cnn.cpp.
 #ifndef VERIF_TREEDYN_GEN_H
 #define VERIF_TREEDYN_GEN_H
-#define TREEDYN_GEN_VERSION 10
+#define TREEDYN_GEN_VERSION 12
 #include "Simbody.h"
 #include "hcommon.h"
 #include <memory>
@@ -18,17 +18,20 @@ namespace td {
 using namespace SimTK;
 
 enum MobType { Pin, Slider, Universal, Cylinder, BendStretch, Planar, Gimbal, Bushing, Ball, Translation, Free,
-               LineOrientation, FreeLine, Weld, Screw, Ellipsoid, SphericalCoords, NumMobTypes };
+               LineOrientation, FreeLine, Weld, Screw, Ellipsoid, SphericalCoords, CantileverFreeBeam, FunctionBased, NumMobTypes };
 static const char* mobName[] = {"Pin", "Slider", "Universal", "Cylinder", "BendStretch", "Planar", "Gimbal", "Bushing",
                                 "Ball", "Translation", "Free", "LineOrientation", "FreeLine", "Weld", "Screw", "Ellipsoid",
-                                "SphericalCoords"};
+                                "SphericalCoords", "CantileverFreeBeam", "FunctionBased"};
 static const char frameKind[] = {'I', 'T', 'G'};   // identity, translation-only, general
 
 struct Options {
     int maxBodies = 12;
     bool allowWeld = true;
     bool allowMassless = false;   // massless intermediate bodies (never terminal)
+    int masslessOneIn = 6;        // probability 1/masslessOneIn per eligible body
     bool allowPrescribed = false; // Motion::Steady / Motion::Sinusoid on mobilizers with qdot == u
+    bool forceMassless = false;     // (only with allowMassless) chain of >= 3 bodies whose body 2 is massless behind a Pin / Slider
+    bool forceWeld = false;         // one randomly chosen body is welded to its parent (RBNodeWeld, 0 dof)
     bool forceLoneParticle = false; // body 1 = forward Translation on Ground, identity frames, no children (RBNodeLoneParticle)
     bool allowConstraint = false; // one Rod / Ball / Weld-free constraint between two bodies in some cases
     double zeroUProb = 0.0;       // probability of u == 0
@@ -88,7 +91,27 @@ inline MobilizedBody makeMobod(int type, MobilizedBody& parent, const Transform&
     case Weld: return MobilizedBody::Weld(parent, XPF, body, XBM);
     case Screw: return MobilizedBody::Screw(parent, XPF, body, XBM, g.signedMag(0.1, 1.0), d);
     case Ellipsoid: return MobilizedBody::Ellipsoid(parent, XPF, body, XBM, Vec3(g.range(0.3, 1.0), g.range(0.3, 1.0), g.range(0.3, 1.0)), d);
-    default: return MobilizedBody::SphericalCoords(parent, XPF, body, XBM, d);
+    case SphericalCoords: return MobilizedBody::SphericalCoords(parent, XPF, body, XBM, d);
+    case CantileverFreeBeam: return MobilizedBody::CantileverFreeBeam(parent, XPF, body, XBM, g.range(0.5, 2.0), d);
+    default: {
+        // FunctionBased (a Custom mobilizer), "regular" use only: rotation k is Linear(q_k) or the constant 0
+        // (other uses are a known finding of C04); translations are generic linear maps so that H has full rank.
+        const int nm = 2 + g.below(2);
+        std::vector<const Function*> fn; std::vector<std::vector<int> > idx;
+        for (int k = 0; k < 6; ++k) {
+            if (k < 3) {
+                if (k < nm && g.below(4) != 0) { Vector cf(2); cf[0] = g.signedMag(0.3, 0.8); cf[1] = g.range(-0.2, 0.2);
+                    fn.push_back(new Function::Linear(cf)); idx.push_back(std::vector<int>(1, k)); }
+                else { fn.push_back(new Function::Constant(0, 0)); idx.push_back(std::vector<int>()); }
+            } else {
+                Vector cf(nm + 1); for (int i = 0; i <= nm; ++i) cf[i] = g.signedMag(0.2, 1.0);
+                fn.push_back(new Function::Linear(cf));
+                std::vector<int> all; for (int i = 0; i < nm; ++i) all.push_back(i);
+                idx.push_back(all);
+            }
+        }
+        return MobilizedBody::FunctionBased(parent, XPF, body, XBM, nm, fn, idx, d);
+    }
     }
 }
 
@@ -106,7 +129,7 @@ inline void setRandomQ(TreeCase& c, int i) {
         if (e.norm() < 0.2) e = Vec4(1, 0.3, -0.2, 0.1);
         e = e / e.norm();
         for (int k = 0; k < 4; ++k) q[k] = e[k];
-    } else if (t == Gimbal || t == Bushing || t == Ball || t == Free || t == Ellipsoid || t == LineOrientation || t == FreeLine) {
+    } else if (t == Gimbal || t == Bushing || t == Ball || t == Free || t == Ellipsoid || t == LineOrientation || t == FreeLine || t == CantileverFreeBeam) {
         q[1] = g.range(-1.0, 1.0);                       // body-fixed XYZ Euler angles: |cos q1| >= 0.54
     }
     if (t == SphericalCoords) { q[1] = g.range(0.5, 2.6); q[2] = g.range(0.5, 2.0); }   // zenith away from 0, pi; radius != 0
@@ -125,10 +148,13 @@ inline std::unique_ptr<TreeCase> buildCase(uint64_t caseSeed, const Options& opt
     // size: small trees most often, occasionally the cap
     int nb;
     { int r = g.below(10); nb = r < 6 ? 1 + g.below(std::min(6, opt.maxBodies)) : 1 + g.below(opt.maxBodies); }
-    const int shape = g.below(4);                          // 0 chain, 1 star, 2 random, 3 binary-ish
+    int shape = g.below(4);                                // 0 chain, 1 star, 2 random, 3 binary-ish
+    const bool fm = opt.forceMassless && opt.allowMassless && opt.maxBodies >= 3;
+    if (fm) { shape = 0; nb = std::max(nb, 3); }
     c.shape = shape == 0 ? "chain" : shape == 1 ? "star" : shape == 2 ? "random" : "bushy";
     c.euler = g.below(3) == 0;
     int nuSoFar = 0; bool prevMassless = false;
+    const int weldAt = opt.forceWeld ? 1 + g.below(nb) : -1;
     for (int i = 1; i <= nb; ++i) {
         int p;
         if (shape == 0) p = i - 1;
@@ -146,11 +172,14 @@ inline std::unique_ptr<TreeCase> buildCase(uint64_t caseSeed, const Options& opt
             static const int okTypes[] = {Pin, Slider, Weld, Universal};
             t = okTypes[g.below(4)]; kf = km = 2; if (t == Weld) rev = false;
         }
+        if (i == weldAt && !prevMassless) { t = Weld; rev = false; }
         if (opt.forceLoneParticle && i == 1) { t = Translation; rev = false; kf = km = 0; }
         const Transform XPF = rframe(g, kf), XBM = rframe(g, km);
         // a massless body is allowed only where a child is certain to follow (chain, not last) and behind a 1-dof joint
-        const bool massless = opt.allowMassless && shape == 0 && i < nb && i > 1 && (t == Pin || t == Slider) && g.below(6) == 0
-                              && !prevMassless && !(c.nMassless > 0);
+        if (fm && i == 2) { t = g.coin() ? Pin : Slider; }
+        const bool massless = (fm && i == 2) ||
+                              (opt.allowMassless && shape == 0 && i < nb && i > 1 && (t == Pin || t == Slider) && g.below(opt.masslessOneIn) == 0
+                              && !prevMassless && !(c.nMassless > 0));
         if (massless) ++c.nMassless;
         prevMassless = massless;
         Body::Rigid body(massless ? MassProperties(0, Vec3(0), Inertia(0)) : rmass(g));
@@ -163,7 +192,7 @@ inline std::unique_ptr<TreeCase> buildCase(uint64_t caseSeed, const Options& opt
             else Motion::Sinusoid(mb, Motion::Position, g.range(0.3, 1.0), g.range(0.5, 2.0), g.range(0.3, 1.2));
         }
         c.tag.push_back(std::string(mobName[t]) + (rev ? ".rev." : ".fwd.") + frameKind[kf] + frameKind[km] + (c.euler ? ".euler" : ".quat"));
-        static const int dofOf[] = {1, 1, 2, 2, 2, 3, 3, 6, 3, 3, 6, 2, 5, 0, 1, 3, 3};
+        static const int dofOf[] = {1, 1, 2, 2, 2, 3, 3, 6, 3, 3, 6, 2, 5, 0, 1, 3, 3, 3, 3};
         nuSoFar += dofOf[t];
     }
     c.nb = nb;
@@ -213,7 +242,45 @@ inline void exportTree(const TreeCase& c, vh::Line& ln) {
         for (int k = 0; k < d; ++k) { const SpatialVec h = mb.getHCol(s, MobilizerUIndex(k)); ln.v(h[0], 3).v(h[1], 3); }
     }
 }
+// the configuration served by RigidBodyNode_LoneParticle.cpp: forward Translation, identity frames, child of Ground, no children
+inline bool isLoneParticle(const TreeCase& c, int i) {
+    if (!(c.tag[i].rfind("Translation.fwd.II", 0) == 0 && c.parentOf[i] == 0)) return false;
+    for (int k = 1; k <= c.nb; ++k) if (c.parentOf[k] == i) return false;
+    return true;
+}
+inline bool anyLoneParticle(const TreeCase& c) { for (int i = 1; i <= c.nb; ++i) if (isLoneParticle(c, i)) return true; return false; }
+// reversed LineOrientation / FreeLine in quaternion mode: qdot = N u is inconsistent with V = H u (known finding
+// C03.reversedLine.quaternion.fd_velocity); finite differences along qdot are meaningless there, so the from-q predicates skip these cases
+inline bool hasReversedLineQuat(const TreeCase& c) {
+    if (c.euler) return false;
+    for (int i = 1; i <= c.nb; ++i) if (c.tag[i].rfind("LineOrientation.rev", 0) == 0 || c.tag[i].rfind("FreeLine.rev", 0) == 0) return true;
+    return false;
+}
+inline bool anyWeld(const TreeCase& c) { for (int i = 1; i <= c.nb; ++i) if (c.type[i] == Weld) return true; return false; }
+// generator options travel in the second token of every I record:  code = maxBodies + 1000*flags  (bit 0 lone particle, bit 1 weld)
+inline int genCode(int maxBodies, int flags) { return maxBodies + 1000 * flags; }
+inline void applyGenCode(int code, Options& opt) { opt.maxBodies = code % 1000; const int fl = code / 1000; opt.forceLoneParticle = fl & 1; opt.forceWeld = (fl & 2) != 0; opt.forceMassless = (fl & 4) != 0; }
+inline int flagsForCase(long k) { return k % 25 == 7 ? 1 : k % 25 == 13 ? 2 : k % 25 == 19 ? 3 : k % 25 == 3 ? 4 : 0; }   // guaranteed shares of the special node classes
+
+// body velocities generated by the speeds u, from central differences of the body poses along qdot = N u  (never touches H)
+inline void fdBodyVelocities(const TreeCase& c, const Vector& u, Real h, std::vector<SpatialVec>& V) {
+    Vector qdot; c.matter->multiplyByN(c.state, false, u, qdot);
+    State sp = c.state, sm = c.state;
+    sp.updQ() = c.state.getQ() + h * qdot; sm.updQ() = c.state.getQ() - h * qdot;
+    c.sys->realize(sp, Stage::Position); c.sys->realize(sm, Stage::Position);
+    V.assign(c.nb + 1, SpatialVec(Vec3(0), Vec3(0)));
+    for (int i = 1; i <= c.nb; ++i) {
+        const Transform& Xp = c.mobods[i].getBodyTransform(sp); const Transform& Xm = c.mobods[i].getBodyTransform(sm);
+        const Mat33 dR = Xp.R().asMat33() * ~Xm.R().asMat33();
+        V[i][0] = Vec3(dR(2, 1) - dR(1, 2), dR(0, 2) - dR(2, 0), dR(1, 0) - dR(0, 1)) / (4 * h);
+        V[i][1] = (Xp.p() - Xm.p()) / (2 * h);
+    }
+}
+
 inline void emitTags(const TreeCase& c) {
+    if (anyLoneParticle(c)) vh::D("node.loneParticle");
+    if (anyWeld(c)) vh::D("node.weld");
+    if (c.nMassless) vh::D("node.massless");
     for (int i = 1; i <= c.nb; ++i) vh::D("mob." + c.tag[i]);
     vh::D("shape." + c.shape);
     vh::D(std::string("nb.") + (c.nb <= 3 ? "1-3" : c.nb <= 6 ? "4-6" : c.nb <= 12 ? "7-12" : c.nb <= 24 ? "13-24" : "25-40"));
